@@ -11,6 +11,7 @@ Candidates are 16-byte strings produced by four generators:
          Only the *generator* looks at miasm's tables; a candidate is used only if mn.dis accepts it.
   cur    byte strings scraped at run time from /repo/test/arch/*/arch.py (and the MeP assembler
          tests), as they are or with one to three random bit flips
+  walk   seed-independent walk over every class of the decoder table (see walk_items)
 
 Everything is deterministic for a given random.Random.
 """
@@ -22,6 +23,17 @@ import struct
 
 REPO = os.environ.get("VERIF_REPO", "/repo")
 TESTS = "/repo/test/arch"   # curated vectors always come from the real repository (tests are not code under test)
+
+
+def enable_pycache():
+    """The runner forbids writing bytecode next to the sources (nothing may be written under
+    /repo), so every worker would recompile miasm's big arch tables (seconds per worker).  Let the
+    workers of one run share compiled bytecode inside the run's scratch directory instead."""
+    import sys
+    d = os.environ.get("VERIF_SCRATCH_DIR")
+    if d and os.path.isdir(d):
+        sys.pycache_prefix = os.path.join(d, "pycache")
+        sys.dont_write_bytecode = False
 
 
 class Spec(object):
@@ -208,12 +220,13 @@ def _templates(spec):
             for f in c.fields:
                 l = f.l
                 sb = getattr(f, "strbits", None) or ""
+                fname = getattr(f, "fname", None)
                 if l is None:
-                    fields.append((None, None))
+                    fields.append((None, None, fname))
                 elif l and sb and len(sb) == l and set(sb) <= set("01"):
-                    fields.append((int(sb, 2), l))
+                    fields.append((int(sb, 2), l, fname))
                 else:
-                    fields.append((None, l))
+                    fields.append((None, l, fname))
         except Exception:
             continue
         out.append(fields)
@@ -221,13 +234,15 @@ def _templates(spec):
     return out
 
 
-def _from_template(spec, fields, rng):
+def _from_template(spec, fields, rng, force=None):
     acc, n = 0, 0
-    for val, l in fields:
+    for val, l, fname in fields:
         if l is None:
             break
         if not l:
             continue
+        if val is None and force and fname in force:
+            val = force[fname] & ((1 << l) - 1)
         if val is None:
             # free field: random, with a bias to the boundary values of register/immediate fields
             r = rng.random()
@@ -246,6 +261,33 @@ def _from_template(spec, fields, rng):
 
 
 X86_PREFIXES = [0x66, 0x67, 0xF2, 0xF3, 0xF0, 0x2E, 0x36, 0x3E, 0x26, 0x64, 0x65]
+X86_SEG = [0x2E, 0x36, 0x3E, 0x26, 0x64, 0x65]
+# (weight, prefix bytes; None = a segment override, "r" = 1-3 random prefixes)
+X86_PFX_COMBOS = [(40, ()), (12, (0x66,)), (8, (0x67,)), (6, (0xF2,)), (6, (0xF3,)), (4, (0xF0,)), (6, (None,)),
+                  (4, (0x66, 0x67)), (2, (0x66, 0xF2)), (2, (0x66, 0xF3)), (2, (0xF2, None)), (1, (0xF3, None)),
+                  (2, (None, 0x66)), (5, "r")]
+_X86_PFX_TOTAL = sum(w for w, _ in X86_PFX_COMBOS)
+
+
+def x86_prefix(rng, mode):
+    """prefix bytes of a template candidate: the operand/address-size and repeat prefixes are drawn
+    from a small weighted set so that every (table class, prefix class) pair is visited often"""
+    r = rng.randrange(_X86_PFX_TOTAL)
+    for w, combo in X86_PFX_COMBOS:
+        if r < w:
+            break
+        r -= w
+    if combo == "r":
+        out = [rng.choice(X86_PREFIXES) for _ in range(rng.choice((1, 2, 2, 3)))]
+    else:
+        out = [rng.choice(X86_SEG) if b is None else b for b in combo]
+    if mode == 64:
+        r = rng.random()
+        if r < 0.2:
+            out.append(0x48)
+        elif r < 0.45:
+            out.append(0x40 | rng.getrandbits(4))
+    return bytes(bytearray(out))
 
 
 class Corpus(object):
@@ -300,18 +342,17 @@ class Corpus(object):
             return self.rand()
         self.t += 1
         fields = self.tmpl[self.t % len(self.tmpl)]
+        spec = self.spec
+        force = None
+        if spec.unit == 1:
+            # x86: register form / the three memory forms of ModRM equally often
+            force = {"mod": self.rng.choice((3, 3, 0, 1, 2))}
         try:
-            be = _from_template(self.spec, fields, self.rng)
+            be = _from_template(spec, fields, self.rng, force)
         except Exception:
             return self.rand()
-        spec = self.spec
         if spec.unit == 1:
-            pre = b""
-            if self.rng.random() < 0.3:
-                pre = bytes(bytearray(self.rng.choice(X86_PREFIXES) for _ in range(self.rng.choice((1, 1, 2)))))
-            if spec.mode == 64 and self.rng.random() < 0.3:
-                pre += bytes(bytearray([0x40 | self.rng.getrandbits(4)]))
-            return self._pad(pre + be)
+            return self._pad(x86_prefix(self.rng, spec.mode) + be)
         be = be + b"\0" * ((-len(be)) % spec.unit)
         full = self._pad(b"")
         mem = to_mem(spec, be)
@@ -342,6 +383,62 @@ class Corpus(object):
         if name == "cur":
             return self.curated_vec(), "cur"
         return self.rand(), "rand"
+
+
+# --------------------------------------------------------------------- deterministic table walk
+# A seed-independent part of every run: each class of the decoder table is instantiated a fixed
+# number of times (fields drawn from a PRNG seeded by the class index only; x86: a fixed list of
+# prefix classes x register/memory ModRM forms).  It makes the frequent findings and any break of a
+# table class visible in every run, whatever VERIF_SEED; the seed-dependent generators explore
+# beyond it.
+WALK_K = {"x86_16": 8, "x86_32": 8, "x86_64": 8, "arm": 1, "armt": 6, "aarch64": 8, "mips32": 6,
+          "ppc32": 3, "msp430": 20, "mep": 6, "sh4": 4}
+X86_WALK_PFX = [(), (0x66,), (0x67,), (0xF3,)]
+
+
+def walk_items(spec, rounds=1, stride=1):
+    """[(class index, variant, round)] ordered variant-major; `stride` subsamples (C16)"""
+    ncls = len(_templates(spec))
+    k = WALK_K[spec.family]
+    items = [(ci, v, r) for r in range(rounds) for v in range(k) for ci in range(ncls)]
+    if stride > 1:
+        items = items[::stride]
+    return items
+
+
+def walk_candidate(spec, ci, v, rnd):
+    import random
+    rng = random.Random("walk/%s/%d/%d/%d" % (spec.family, ci, v, rnd))
+    fields = _templates(spec)[ci]
+    force = None
+    pre = b""
+    if spec.unit == 1:
+        force = {"mod": 3 if (v // len(X86_WALK_PFX)) % 2 == 0 else (ci + rnd) % 3}
+        pre = bytes(bytearray(X86_WALK_PFX[v % len(X86_WALK_PFX)]))
+        if spec.mode == 64 and (v + rnd) % 2 == 1:
+            pre += bytes(bytearray([0x48 if (v + rnd) % 4 == 1 else 0x40 | rng.getrandbits(4)]))
+    try:
+        be = _from_template(spec, fields, rng, force)
+    except Exception:
+        be = b""
+    tail = bytes(bytearray(rng.getrandbits(8) for _ in range(16)))
+    if spec.unit == 1:
+        return (pre + be + tail)[:16]
+    be = be + b"\0" * ((-len(be)) % spec.unit)
+    return (to_mem(spec, be) + tail)[:16]
+
+
+def stream(spec, rng, index, n_random, walk=None):
+    """candidates of one shard: its share of the deterministic walk, then n_random seed-dependent
+    candidates.  walk = (shard, nshards, rounds, stride) or None.  Yields (bytes, origin)."""
+    if walk is not None:
+        shard, nshards, rounds, stride = walk
+        for j, (ci, v, r) in enumerate(walk_items(spec, rounds, stride)):
+            if j % nshards == shard:
+                yield walk_candidate(spec, ci, v, r), "walk"
+    corpus = Corpus(spec, rng, index=index)
+    for _ in range(n_random):
+        yield corpus.next()
 
 
 # --------------------------------------------------------------------- decoding helpers
@@ -378,3 +475,146 @@ def same_instr(a, b):
 
 def hexs(b):
     return "".join("%02x" % c for c in bytearray(b))
+
+
+_X86_LEGACY = {0x66: "o", 0x67: "a", 0xF0: "lock", 0xF2: "repne", 0xF3: "rep", 0x2E: "seg", 0x36: "seg",
+               0x3E: "seg", 0x26: "seg", 0x64: "seg", 0x65: "seg"}
+
+
+def x86_prefix_class(raw, mode):
+    """dominant prefix class of the bytes of an x86 instruction (computed from the bytes, not from
+    miasm): 'g1' (lock/rep/repne) > 'o' (66) > 'a' (67) > 'seg' > 'rex' > '' """
+    seen = set()
+    i = 0
+    raw = bytearray(raw)
+    while i < len(raw) and raw[i] in _X86_LEGACY:
+        seen.add(_X86_LEGACY[raw[i]])
+        i += 1
+    if seen & {"lock", "rep", "repne"}:
+        return "g1"
+    for k in ("o", "a", "seg"):
+        if k in seen:
+            return k
+    if mode == 64 and i < len(raw) and 0x40 <= raw[i] <= 0x4F:
+        return "rex"
+    return ""
+
+
+def x86_strip_legacy(raw):
+    raw = bytearray(raw)
+    i = 0
+    while i < len(raw) and raw[i] in _X86_LEGACY:
+        i += 1
+    return bytes(raw[i:])
+
+
+def _k(e):
+    return "%s%d" % (type(e).__name__[4:], e.size)
+
+
+def diff_sig(a, b, inptr=False):
+    """abstract description of the first structural difference of two operand expressions"""
+    suffix = "@ptr" if inptr else ""
+    if type(a) is not type(b) or a.size != b.size:
+        return "%s!=%s%s" % (_k(a), _k(b), suffix)
+    if a == b:
+        return None
+    if a.is_int():
+        return "%s value%s" % (_k(a), suffix)
+    if a.is_id() or a.is_loc():
+        return "%s name%s" % (_k(a), suffix)
+    if a.is_mem():
+        return diff_sig(a.ptr, b.ptr, True) or "Mem?"
+    if a.is_op():
+        if a.op != b.op:
+            return "Op %s!=%s%s" % (a.op, b.op, suffix)
+        if len(a.args) != len(b.args):
+            return "Op %s arity%s" % (a.op, suffix)
+        for x, y in zip(a.args, b.args):
+            d = diff_sig(x, y, inptr)
+            if d:
+                return d
+        return "Op?"
+    if a.is_slice():
+        if (a.start, a.stop) != (b.start, b.stop):
+            return "Slice bounds%s" % suffix
+        return diff_sig(a.arg, b.arg, inptr) or "Slice?"
+    if a.is_compose():
+        if len(a.args) != len(b.args):
+            return "Compose arity%s" % suffix
+        for x, y in zip(a.args, b.args):
+            d = diff_sig(x, y, inptr)
+            if d:
+                return d
+        return "Compose?"
+    if a.is_cond():
+        for x, y in ((a.cond, b.cond), (a.src1, b.src1), (a.src2, b.src2)):
+            d = diff_sig(x, y, inptr)
+            if d:
+                return d
+    return "?"
+
+
+def args_diff_sig(a_args, b_args):
+    if len(a_args) != len(b_args):
+        return "nargs"
+    for x, y in zip(a_args, b_args):
+        d = diff_sig(x, y)
+        if d:
+            return d
+    return "?"
+
+
+def _shape(e, depth=0):
+    if e.is_id():
+        return "Id%d" % e.size
+    if e.is_int():
+        return "Int%d" % e.size
+    if e.is_loc():
+        return "Loc%d" % e.size
+    if depth >= 3:
+        return "%s%d" % (type(e).__name__[4:], e.size)
+    if e.is_mem():
+        return "Mem%d[%s]" % (e.size, _shape(e.ptr, depth + 1))
+    if e.is_op():
+        return "%s(%s)" % (e.op, ",".join(_shape(a, depth + 1) for a in e.args))
+    if e.is_slice():
+        return "%s[%d:%d]" % (_shape(e.arg, depth + 1), e.start, e.stop)
+    if e.is_compose():
+        return "{%s}" % ",".join(_shape(a, depth + 1) for a in e.args)
+    if e.is_cond():
+        return "Cond%d" % e.size
+    return type(e).__name__
+
+
+def operand_shape(instr):
+    """operand structure without register names or values: 'Id32/Mem32[+(Id32,Int32)]'"""
+    return "/".join(_shape(a) for a in instr.args) or "-"
+
+
+def codec_sig(spec, instr):
+    """operand codec chain of the table class that decodes these bytes: the names of the field
+    classes (arch/*/arch.py) that carry operands, e.g. 'ppc_crfreg+ppc_s14imm_branch'.  Mnemonics
+    generated from one table template (condition codes, link/absolute bits, ALU groups) share it,
+    and it names the encode/decode code a finding lives in.  Derived from miasm's own tables, used
+    only to *name* findings; None when it cannot be determined."""
+    try:
+        from miasm.core.bin_stream import bin_stream_str
+        mn = spec.mn
+        bs = bin_stream_str(bytes(instr.b) + b"\0" * 16)
+        pre_dis_info, bs2, mode, offset, _ = mn.pre_dis(bs, spec.mode, 0)
+        sigs = set()
+        for c in mn.guess_mnemo(bs2, mode, pre_dis_info, offset):
+            if getattr(c, "name", None) != instr.name:
+                continue
+            names = []
+            for f in c.fields:
+                cl = getattr(f, "cls", None)
+                if cl and cl[0].__name__ != "bs_fbit":      # x86 prefix pseudo-fields
+                    names.append(cl[0].__name__)
+            sigs.add("+".join(names) or "-")
+        if sigs:
+            return sorted(sigs)[0]
+    except Exception:
+        pass
+    return None
